@@ -5,17 +5,20 @@ PROP = "C06"
 
 
 def run(tier):
+    QUICK_CFGS = lambda: vfsrun.cfgs([5], [0, 1, 2, 3], [0, 2, 4, 7]) + vfsrun.cfgs([1], [2, 3], [0, 6]) + vfsrun.cfgs([5], [2, 3], [0, 6], shapes=(1, 2)) + vfsrun.cfgs([0], [2], [3])
+    extra = []
     if tier == "quick":
-        cfgs = vfsrun.cfgs([5], [0, 1, 2, 3], [0, 2, 4, 7]) + vfsrun.cfgs([1], [2, 3], [0, 6]) + vfsrun.cfgs([5], [2, 3], [0, 6], shapes=(1, 2)) + vfsrun.cfgs([0], [2], [3])
+        cfgs = QUICK_CFGS()
         depth = 4
         longs, writes = vfsrun.cfgs([1], [3, 4], [0, 4], ticks=(0, 1)) + vfsrun.cfgs([1], [3], [0], shapes=(1, 2)), (12,)
     else:
         cfgs = vfsrun.cfgs([1, 5], [-1, 0, 1, 2, 3, 4], range(8)) + vfsrun.cfgs([5], [2, 3], range(8), shapes=(1, 2)) + vfsrun.cfgs([0], [2, 3], [1, 2, 3, 7])
-        depth = 5
+        depth = 4
+        extra = [(QUICK_CFGS(), 5)]      # depth 5 on the quick configuration set, depth 4 on the full set: sized to finish (see vfsrun.DEADLINE)
         longs, writes = vfsrun.cfgs([1], [0, 2, 3, 5, 12], [0, 2, 4], ticks=(0, 1)) + vfsrun.cfgs([1], [3], [0, 4], shapes=(1, 2)), (12, 102)
     deep = (vfsrun.cfgs([5], [2, 3], [0, 2, 3, 4, 7]) + vfsrun.cfgs([1], [3], [0, 2]), 6) if tier == 'quick' else (cfgs, 7)
     return vfsrun.hist_check(
-        PROP, tier, cfgs, depth,
+        PROP, tier, cfgs, depth, extra_groups=extra,
         rule="every operation history up to the depth bound for file-count limits N in {<=0, 1, 2, 3, ..} with all file timestamps tied (virtual clock does not advance "
              "between operations) or 1 ms apart, plus straight-line histories of 12 (and 102) consecutive rotations crossing index 9->10 (99->100), with look-alike foreign "
              "files in the directory (dated 2000-01-01, i.e. 'oldest'); after every operation: active+rotated <= N, the surviving rotated files are the most recent ones "
